@@ -585,6 +585,11 @@ func (e *engine) shutdownCount(inst int) int {
 }
 
 func (e *engine) recvOf(p *proc) *simReceiver {
+	if p.recv != nil {
+		// what the process really reads: a receiver named or subscribed otherwise than its role says then shows up as different
+		// behaviour (and in the twowf family as lost events), not as a simulation that cannot go on
+		return p.recv
+	}
 	return &simReceiver{s: e.s, p: p, topic: topicOfUnit(p.unit), name: p.role}
 }
 
